@@ -2,12 +2,14 @@ use std::borrow::Cow;
 
 use bstr::{ByteSlice, ByteVec};
 
-/// The final component of the path, if it is a normal file.
+/// The final component of the path: everything after the last `/`.
 ///
-/// If the path terminates in `.`, `..`, or consists solely of a root of
-/// prefix, file_name will return None.
+/// This is `None` only for the empty path. In particular, a path that ends
+/// in `.` (such as `foo.` or `a/..`) has a final component like any other, so
+/// that the basename and extension based matching strategies agree with what
+/// the glob's regex matches.
 pub(crate) fn file_name<'a>(path: &Cow<'a, [u8]>) -> Option<Cow<'a, [u8]>> {
-    if path.last_byte().map_or(true, |b| b == b'.') {
+    if path.is_empty() {
         return None;
     }
     let last_slash = path.rfind_byte(b'/').map(|i| i + 1).unwrap_or(0);
